@@ -54,6 +54,9 @@ def gen_make(rng):
             return dict(t="sub", a=a, b=b)
         return dict(t="lin", a=a, b=b, ca=rng.choice([1.0, 2.0, -1.0, 0.5]), cb=rng.choice([-1.0, -2.0, 1.0, -0.5]))
     if k == "cp":
+        if rng.random() < 0.35:
+            # critical pairs handed over as Python INTEGERS (a legal constructor argument), also large ones: vertical unit 1 or 2000
+            return dict(t="cp", cps=rand_cp(rng, 0, 8), int=1, vmul=rng.choice([1, 2000, 2000]))
         return dict(t="cp", cps=rand_cp(rng, 0, 8))
     if k == "sqcp":
         return dict(t="cp", cps=sq_cp(rng), squares=True)
@@ -72,7 +75,8 @@ def gen_make(rng):
     # int: the values array has an INTEGER dtype (vertical unit 1, independent of the embedding of the abscissae, so the grid step is
     # not an integer under the fractional embeddings)
     isint = int(rng.random() < 0.4)
-    mk = lambda: dict(t="avals", vals=[[0] + [rng.randint(-3, 5) for _ in range(n - 2)] + [0] for _ in range(rng.randint(1, 2))], grid=[a0, s, n], int=isint)
+    vmul = rng.choice([1, 1, 2000]) if isint else 1
+    mk = lambda: dict(t="avals", vals=[[0] + [rng.randint(-3, 5) for _ in range(n - 2)] + [0] for _ in range(rng.randint(1, 2))], grid=[a0, s, n], int=isint, vmul=vmul)
     if k == "avals":
         return mk()
     return dict(t="sub", a=mk(), b=mk())
@@ -83,9 +87,9 @@ def to_float_make(m, e):
     if "bars" in m:
         o["bars"] = [[e.f(b), e.f(d)] for b, d in m["bars"]]
     if "cps" in m:
-        o["cps"] = [[[e.f(x), float(e.s * y)] for x, y in d] for d in m["cps"]]
+        o["cps"] = [[[e.f(x), int(y) * m.get("vmul", 1)] for x, y in d] for d in m["cps"]] if m.get("int") else [[[e.f(x), float(e.s * y)] for x, y in d] for d in m["cps"]]
     if "vals" in m:
-        o["vals"] = [[int(y) for y in row] for row in m["vals"]] if m.get("int") else [[float(e.s * y) for y in row] for row in m["vals"]]
+        o["vals"] = [[int(y) * m.get("vmul", 1) for y in row] for row in m["vals"]] if m.get("int") else [[float(e.s * y) for y in row] for row in m["vals"]]
     for kk in ("int", "lazy", "first"):
         if m.get(kk):
             o[kk] = m[kk]
@@ -103,8 +107,10 @@ def to_float_make(m, e):
 
 def vscale(m, e):
     """vertical unit of the object's values: 1 for integer-dtype value arrays, the embedding's scale otherwise"""
-    if m.get("int") or (m.get("t") == "sub" and m["a"].get("int")):
-        return Fraction(1)
+    if m.get("int"):
+        return Fraction(m.get("vmul", 1))
+    if m.get("t") == "sub" and m["a"].get("int"):
+        return Fraction(m["a"].get("vmul", 1))
     return e.s
 
 
@@ -117,7 +123,7 @@ def decode_obj(c, e, vs=None):
             pts = []
             for x, y in d:
                 fx = (Fraction(unfl(x)) - e.t) / e.s
-                fy = Fraction(unfl(y)) / e.s
+                fy = Fraction(unfl(y)) / vs
                 if fx.denominator != 1:
                     return None
                 pts.append([int(fx), fy]); ys.append(fy)
